@@ -1,6 +1,7 @@
 (* Non-vacuity for C15: concrete numerals meet the hypotheses of the theorems and the model gives the expected forms. *)
 From Coq Require Import List NArith ZArith Bool Lia.
 From SudachiVerif Require Import Model.Numeric Model.NumericRef Proofs.NumericProofs Proofs.NumericRefProofs Proofs.NumericGrouped.
+From SudachiVerif Require Import Model.NumericCanon Proofs.NumericCanonProofs.
 Import ListNotations.
 Open Scope N_scope.
 
@@ -71,3 +72,34 @@ Example ex_groups :
   groups_ok [1;2] [[3;4;5]; [6;7;8]] = true /\ groups_ok [1;2] [[3;4]] = false /\ groups_ok [0] [[1;2;3]] = false /\
   groups_ok [] [[1;2;3]] = false /\ groups_ok [1] [[]; [1;2;3]] = false.
 Proof. vm_compute. repeat split. Qed.
+
+(* canonical writings: 3200013270014 = 三兆二千億千三百二十七万十四 (kanji_of) = 3兆2000億1327万14 (mixed_of) *)
+Example ex_kanji_of :
+  kanji_of 3200013270014 = [19977;20806;20108;21315;20740;21315;19977;30334;20108;21313;19971;19975;21313;22235] /\
+  mixed_of 3200013270014 = [51;20806;50;48;48;48;20740;49;51;50;55;19975;49;52] /\
+  dec16 3200013270014 = [3;2;0;0;0;1;3;2;7;0;0;1;4].
+Proof. vm_compute. repeat split. Qed.
+
+(* the range hypothesis of C15_canonical_value is met at both ends, with every group present *)
+Example ex_canon_range : (0 < 1 < 10 ^ 16)%N /\ (0 < 9999999999999999 < 10 ^ 16)%N /\
+  parse gen_cfg (kanji_of 9999999999999999) = (true, 0, map digit_char (dec16 9999999999999999)).
+Proof. split; [vm_compute; split; reflexivity|]. split; [vm_compute; split; reflexivity|]. vm_compute. reflexivity. Qed.
+
+(* units out of order, as decided by C15_unit_order_behaviour:
+   百万3万 (room 2 after 百, one digit): accepted, 1030000 = 1000000 + 30000;
+   千万5百万: accepted, 15000000;  1万2万 and 12万3万 (room 0): rejected;  1万2億 (increasing): rejected *)
+Example ex_unit_order :
+  two_unit_text (kanji_group std_style) arabic_group (0,1,0,0) UMAN (0,0,0,3) UMAN = [30334; 19975; 51; 19975] /\
+  two_unit_fits groom (0,1,0,0) 4 (0,0,0,3) 4 = true /\
+  parse gen_cfg [30334; 19975; 51; 19975] = (true, 0, [49;48;51;48;48;48;48]) /\
+  two_unit_fits groom (1,0,0,0) 4 (0,5,0,0) 4 = true /\
+  parse gen_cfg [21315; 19975; 53; 30334; 19975] = (true, 0, [49;53;48;48;48;48;48;48]) /\
+  two_unit_fits (fun _ => 0%nat) (0,0,0,1) 4 (0,0,0,2) 4 = false /\ fst (parse gen_cfg [49; 19975; 50; 19975]) = (false, 0) /\
+  fst (parse gen_cfg [49; 50; 19975; 51; 19975]) = (false, 0) /\
+  two_unit_fits (fun _ => 0%nat) (0,0,0,1) 4 (0,0,0,2) 8 = false /\ fst (parse gen_cfg [49; 19975; 50; 20740]) = (false, 0).
+Proof. vm_compute. repeat split. Qed.
+
+(* grouped / fraction writers *)
+Example ex_grouped_fraction :
+  grouped_text [1;2;3;4;5;6;7] = [49;44;50;51;52;44;53;54;55] /\ fraction_text [3] [1;4;0] = [51;46;49;52;48].
+Proof. vm_compute. split; reflexivity. Qed.
